@@ -569,6 +569,16 @@ func freqSweep(w *numWriter, rng *rand.Rand, rates []float64, ncounts int) {
 		}
 		// durations 0..24 h, dense near half-event ties
 		dset := map[int64]struct{}{0: {}, 1: {}, int64(24 * time.Hour): {}, int64(time.Second): {}}
+		for k := 0; k < 4; k++ { // the first rounding ties (half an event, one and a half, ...) and one period
+			for e := int64(-2); e <= 2; e++ {
+				if v := int64((float64(k)+0.5)/r*1e9) + e; v >= 0 && v <= int64(24*time.Hour) {
+					dset[v] = struct{}{}
+				}
+				if v := int64(float64(k+1)/r*1e9) + e; v >= 0 && v <= int64(24*time.Hour) {
+					dset[v] = struct{}{}
+				}
+			}
+		}
 		for i := 0; i < ncounts; i++ {
 			dset[rng.Int63n(int64(24*time.Hour)+1)] = struct{}{}
 			k := float64(rng.Intn(1 + int(math.Min(r*86400, 2e9))))
